@@ -40,6 +40,8 @@ type xg struct {
 	mb bool // allow multi-byte material
 	// forceLib makes the next name() draw from libNames (used for the root of a fragment)
 	forceLib bool
+	// eom: the session is 1.1, the 1.0 delimiter may occur in the payload
+	eom bool
 }
 
 func (g *xg) pick(p []string) string { return p[g.r.Intn(len(p))] }
@@ -170,14 +172,7 @@ func (g *xg) elem(b *strings.Builder, depth int, parent string, budget *int) {
 		b.WriteString("<" + name + at + tagWS + ">" + g.text() + end)
 	case 6: // comment / CDATA / PI content without markup look-alikes
 		b.WriteString("<" + name + at + tagWS + ">")
-		switch g.r.Intn(3) {
-		case 0:
-			b.WriteString("<!-- note " + g.text2() + " -->")
-		case 1:
-			b.WriteString("<![CDATA[ 1 < 2 && \"x\" " + g.text2() + " ]]>")
-		default:
-			b.WriteString("<?hint keep?>" + g.text())
-		}
+		b.WriteString(g.special())
 		b.WriteString(end)
 	default: // children, optionally indented, optionally mixed with text
 		b.WriteString("<" + name + at + tagWS + ">")
@@ -227,6 +222,47 @@ func (g *xg) elem(b *strings.Builder, depth int, parent string, budget *int) {
 	}
 }
 
+var piPool = []string{
+	"<?hint keep?>", `<?xml-stylesheet type="text/xsl" href="a.xsl"?>`, `<?xml-model href="x.rnc" type="application/relax-ng-compact-syntax"?>`,
+	"<?xmlfoo?>", "<?XML-Thing a > b?>", "<?php echo 1; ?>", "<?target?>",
+}
+
+var afterPI = []string{"", " ", "\n", "\t\n  ", "\r\n", "  \n\n"}
+
+const embeddedDoc = "<device><a>1</a><b x=\"2\">é</b></device>"
+
+// special draws comment / CDATA / processing-instruction content (without text that looks like an
+// empty element pair after a '>', which is the known rewrite finding).
+func (g *xg) special() string {
+	switch g.r.Intn(12) {
+	case 0:
+		return "<!-- note " + g.text2() + " -->"
+	case 1:
+		return "<![CDATA[ 1 < 2 && \"x\" " + g.text2() + " ]]>"
+	case 2, 3: // processing instructions, also with targets that start with "xml", mixed white space after
+		return g.pick(piPool) + g.pick(afterPI) + g.text()
+	case 4: // an XML document carried as data
+		return "<![CDATA[<?xml version=\"1.0\" encoding=\"UTF-8\"?>" + g.pick(afterPI) + embeddedDoc + "]]>"
+	case 5:
+		return "<![CDATA[\ufeff<?xml version='1.1' standalone=\"yes\" ?>\n" + embeddedDoc + "\n]]>"
+	case 6:
+		return "<!-- <?xml version=\"1.0\"?>" + g.pick(afterPI) + "was the first line -->" + g.text()
+	case 7: // look-alikes of the 1.0 delimiter
+		return g.pick([]string{"<![CDATA[x]]]]><![CDATA[>]]>", "<![CDATA[]]]>", "]]&gt;]]&gt;", "<![CDATA[ ]] > ]] > ]]>", "]]]]", "<![CDATA[]]]]><![CDATA[>]]]]><![CDATA[>]]>"})
+	case 8:
+		if g.eom {
+			return g.pick([]string{"<!-- ]]>]]> -->", "<?pi ]]>]]>?>", "<!--]]>]]>--><![CDATA[x]]>"})
+		}
+		return "<!-- ]]> ]]> -->"
+	case 9: // entity and character references
+		return g.pick([]string{"&amp;&lt;&gt;&apos;&quot;", "&#60;?xml version=&#34;1.0&#34;?&#62;", "&#xFEFF;x", "a&#x26;b", "&lt;?xml version=\"1.0\"?&gt; "})
+	case 10:
+		return "\ufeff" + g.text()
+	default:
+		return g.pick(piPool) + g.pick(afterPI) + "<![CDATA[" + g.pick(piPool) + "]]>" + g.pick(afterPI) + g.pick(piPool)
+	}
+}
+
 // text2 is text without '<' '&' and without "--" (usable inside comments / CDATA).
 func (g *xg) text2() string {
 	for {
@@ -254,6 +290,14 @@ func (g *xg) Fragment() string {
 		g.elem(&b, 1, "", &budget)
 		b.WriteString("\n")
 	default:
+		switch g.r.Intn(16) {
+		case 0:
+			b.WriteString(g.pick(piPool) + g.pick(afterPI))
+		case 1:
+			b.WriteString("<?xml version=\"1.0\" encoding=\"UTF-8\"?>" + g.pick(afterPI))
+		case 2:
+			b.WriteString("\ufeff")
+		}
 		g.forceLib = g.r.Intn(3) == 0
 		g.elem(&b, 3, "", &budget)
 	}
@@ -264,6 +308,16 @@ func (g *xg) Fragment() string {
 func (g *xg) Config() string {
 	var b strings.Builder
 	budget := 3 + g.r.Intn(25)
+	switch g.r.Intn(14) {
+	case 0: // what a config read from a file starts with; the pinned library forwards it verbatim
+		b.WriteString("<?xml version=\"1.0\" encoding=\"UTF-8\"?>" + g.pick(afterPI))
+	case 1:
+		b.WriteString("\ufeff")
+	case 2:
+		b.WriteString("\ufeff<?xml version=\"1.0\"?>\n")
+	case 3:
+		b.WriteString(g.pick(piPool) + g.pick(afterPI))
+	}
 	switch g.r.Intn(5) {
 	case 0:
 		b.WriteString("<default-operation>merge</default-operation>")
